@@ -172,7 +172,7 @@ def run(ctx):
         vlib.write_ndjson(os.path.join(wd, "cases.ndjson"), [case])
     else:
         thorough = ctx.tier == "thorough"
-        ntrees, nclean, nfaulty = (240, 4000, 4000) if thorough else (120, 1000, 1000)
+        ntrees, nclean, nfaulty = (400, 10000, 10000) if thorough else (120, 1000, 1000)
         trees = gen_trees(ctx.seed, ntrees)
         vlib.write_ndjson(os.path.join(wd, "trees.ndjson"), trees)
         json.dump(AUX, open(os.path.join(wd, "aux.json"), "w"))
